@@ -45,6 +45,8 @@ def decOp (j : Json) : Except String (Nat × Op) := do
     | "check" => pure (Op.check (← decStr (← field j "desc")) (← decBool (← field j "ok")) (← decOpt decStr (fieldOpt j "details")))
     | "url" => pure (Op.url (← decStr (← field j "url")) (← decStr (← field j "desc")))
     | "attach" => pure (Op.attach (← decStr (← field j "file")) (← decStr (← field j "desc")) (← decBool (← field j "img")))
+    | "attachBegin" => pure (Op.attachBegin (← decStr (← field j "file")) (← decStr (← field j "desc")) (← decBool (← field j "img")))
+    | "attachEnd" => pure Op.attachEnd
     | "threadCreate" => pure (Op.threadCreate (← decNat (← field j "new")))
     | "threadRun" => pure Op.threadRun
     | "threadEnd" => pure Op.threadEnd
@@ -52,7 +54,7 @@ def decOp (j : Json) : Except String (Nat × Op) := do
   pure (tid, op)
 
 def errStr : Err → String
-  | .noCursor => "noCursor" | .noStep => "noStep" | .noSavedThread => "noSavedThread"
+  | .noCursor => "noCursor" | .noStep => "noStep" | .noSavedThread => "noSavedThread" | .noAttach => "noAttach"
 
 def handleOps (j : Json) : Except String Json := do
   let ops ← (← getArr j "ops").toList.mapM decOp
